@@ -78,6 +78,38 @@ fn run_case<G: AffineRepr>(env: &Env<G>, c: &Case) -> CaseOut {
             invalid.push(Inst { prog: pool[i].prog.clone(), vs: pool[i].vs.clone(), proof: p, mirror: m, desc: format!("mutated({})", pool[i].desc), valid: false });
         }
     }
+    // structurally invalid members (rejected before the combined check is reached)
+    for i in [1usize, 3, 4] {
+        let base = &pool[i % pool.len()];
+        let mut m = base.mirror.clone();
+        m.T_1 = G::zero();
+        if let Some(p) = m.to_real() {
+            invalid.push(Inst { prog: base.prog.clone(), vs: base.vs.clone(), proof: p, mirror: m, desc: format!("T_1=identity({})", base.desc), valid: false });
+        }
+        let mut m = base.mirror.clone();
+        m.S1 = G::zero();
+        if let Some(p) = m.to_real() {
+            invalid.push(Inst { prog: base.prog.clone(), vs: base.vs.clone(), proof: p, mirror: m, desc: format!("S1=identity({})", base.desc), valid: false });
+        }
+        let mut m = base.mirror.clone();
+        if !m.ipp.L.is_empty() {
+            m.ipp.L.pop();
+            m.ipp.R.pop();
+        } else {
+            m.ipp.L.push(env.pc.B);
+            m.ipp.R.push(env.pc.B);
+        }
+        if let Some(p) = m.to_real() {
+            invalid.push(Inst { prog: base.prog.clone(), vs: base.vs.clone(), proof: p, mirror: m, desc: format!("wrong-round-count({})", base.desc), valid: false });
+        }
+        let mut m = base.mirror.clone();
+        if !m.ipp.L.is_empty() {
+            m.ipp.L[0] = G::zero();
+            if let Some(p) = m.to_real() {
+                invalid.push(Inst { prog: base.prog.clone(), vs: base.vs.clone(), proof: p, mirror: m, desc: format!("L[0]=identity({})", base.desc), valid: false });
+            }
+        }
+    }
     // wrong statement: a proof paired with another instance's statement of the same commitment count
     {
         let a = &pool[2];
@@ -99,7 +131,7 @@ fn run_case<G: AffineRepr>(env: &Env<G>, c: &Case) -> CaseOut {
     // one invalid member at every position
     for pos in 0..pool.len().min(7) {
         let mut b: Vec<&Inst<G>> = pool.iter().take(7).collect();
-        let bad = &invalid[pos % invalid.len()];
+        let bad = &invalid[(pos * 5 + (c.seed % 7) as usize) % invalid.len()];
         b[pos] = bad;
         batches.push((format!("one-invalid@{}", pos), b));
     }
@@ -131,6 +163,11 @@ fn run_case<G: AffineRepr>(env: &Env<G>, c: &Case) -> CaseOut {
                 forged_store.push(q);
                 forged_batches.push((format!("forged-pair[{}±d]", wn), vec![i0, i0 + 1], vec![0, 1]));
                 forged_batches.push((format!("forged-pair[{}±d]+valid-between", wn), vec![i0, i0 + 1], vec![0, usize::MAX, 1]));
+                // the same pair away from the first slot(s): weights that are fresh only for a prefix
+                forged_batches.push((format!("forged-pair[{}±d]@1,2", wn), vec![i0, i0 + 1], vec![usize::MAX, 0, 1]));
+                forged_batches.push((format!("forged-pair[{}±d]@2,3", wn), vec![i0, i0 + 1], vec![usize::MAX, usize::MAX, 0, 1]));
+                forged_batches.push((format!("forged-pair[{}±d]@1,3", wn), vec![i0, i0 + 1], vec![usize::MAX, 0, usize::MAX, 1]));
+                forged_batches.push((format!("forged-pair[{}±d]@last-two-of-6", wn), vec![i0, i0 + 1], vec![usize::MAX, usize::MAX, usize::MAX, usize::MAX, 0, 1]));
             }
             // triple (+d, +e, -d-e)
             if let (Some(p), Some(q), Some(s)) = (mk(d, "+d".into()), mk(e, "+e".into()), mk(-d - e, "-d-e".into())) {
@@ -139,6 +176,7 @@ fn run_case<G: AffineRepr>(env: &Env<G>, c: &Case) -> CaseOut {
                 forged_store.push(q);
                 forged_store.push(s);
                 forged_batches.push((format!("forged-triple[{}]", wn), vec![i0, i0 + 1, i0 + 2], vec![0, 1, 2]));
+                forged_batches.push((format!("forged-triple[{}]@1,2,3", wn), vec![i0, i0 + 1, i0 + 2], vec![usize::MAX, 0, 1, 2]));
             }
             // integer-ratio families: slots i<j with weights (i+1),(j+1): shifts (j+1)d and -(i+1)d
             for (si, sj) in [(0usize, 1usize), (0, 2), (1, 2), (1, 3), (0, 3), (2, 3)] {
